@@ -312,3 +312,181 @@ func ruleCornerTables(c *Ctx) {
 	}
 	c.R.Floor("T8-pointFor", len(cases), 8)
 }
+
+// ruleEndpointOrder (T8b): the per-side ordering of cut endpoints
+// (sortableEndpoints.Less) against the side numbering of pointSide.  For each
+// side the primary comparison and the tie-break (the vertex before the
+// endpoint) must use the same axis and the same relation; the axis must be the
+// one that varies along that side; the directions must walk the box boundary
+// counter-clockwise (left side downwards, bottom rightwards, right side
+// upwards, top leftwards).
+func ruleEndpointOrder(c *Ctx) {
+	p := c.P
+	c.R.Rule("T8b: sortableEndpoints.Less per side: primary and tie-break comparisons agree in axis and relation, the axis is the one varying along that side (from pointSide's table) and the four directions form the counter-clockwise walk of the box")
+	pk := p.Pkgs[orbPath+"/clip/smartclip"]
+	_, ps := findFuncDecl(p, orbPath+"/clip/smartclip", "pointSide")
+	_, less := findMethodDecl(p, orbPath+"/clip/smartclip", "sortableEndpoints", "Less")
+	if pk == nil || ps == nil || less == nil {
+		c.R.Unknown("T8b-endpoint-order", "clip/smartclip.sortableEndpoints.Less", "", "pointSide / Less not found")
+		return
+	}
+	// side number -> (fixed axis, Min|Max)
+	type sideDef struct {
+		axis int64
+		side string
+	}
+	var pointPar, boundPar types.Object
+	for _, f := range ps.Type.Params.List {
+		for _, n := range f.Names {
+			obj := pk.TypesInfo.Defs[n]
+			switch obj.Type().String() {
+			case orbPath + ".Point":
+				pointPar = obj
+			case orbPath + ".Bound":
+				boundPar = obj
+			}
+		}
+	}
+	sides := map[int64]sideDef{}
+	ast.Inspect(ps.Body, func(n ast.Node) bool {
+		ifs, ok := n.(*ast.IfStmt)
+		if !ok {
+			return true
+		}
+		be, ok := ast.Unparen(ifs.Cond).(*ast.BinaryExpr)
+		if !ok || be.Op != token.EQL {
+			return true
+		}
+		k1, s1, a1, ok1 := coordOf(pk, be.X, pointPar, boundPar)
+		k2, s2, a2, ok2 := coordOf(pk, be.Y, pointPar, boundPar)
+		if !ok1 || !ok2 || k1 == k2 || a1 != a2 {
+			return true
+		}
+		side := s2
+		if k1 == "box" {
+			side = s1
+		}
+		for _, st := range ifs.Body.List {
+			if rs, ok := st.(*ast.ReturnStmt); ok && len(rs.Results) == 1 {
+				if v, ok := constInt(pk, rs.Results[0]); ok {
+					sides[v] = sideDef{a1, side}
+				}
+			}
+		}
+		return true
+	})
+	if len(sides) != 4 {
+		c.R.Unknown("T8b-endpoint-order", "clip/smartclip.pointSide", p.Pos(ps.Pos()), fmt.Sprintf("expected four side rows, extracted %d", len(sides)))
+		return
+	}
+	// Less: per case, the comparisons returned
+	type cmp struct {
+		axis   int64
+		rel    string
+		before bool
+	}
+	operand := func(e ast.Expr) (idx string, axis int64, before bool, ok bool) {
+		ie, isIdx := ast.Unparen(e).(*ast.IndexExpr)
+		if !isIdx {
+			return
+		}
+		ax, okc := constInt(pk, ie.Index)
+		if !okc {
+			return
+		}
+		txt := types.ExprString(ie.X)
+		before = strings.Contains(txt, "Before(")
+		if !before && !strings.HasSuffix(txt, ".Point") {
+			return
+		}
+		// which element: e.eps[i] or e.eps[j]
+		var which string
+		ast.Inspect(ie.X, func(n ast.Node) bool {
+			if in, ok := n.(*ast.IndexExpr); ok {
+				if id, ok := in.Index.(*ast.Ident); ok && which == "" {
+					which = id.Name
+				}
+			}
+			return true
+		})
+		return which, ax, before, which != ""
+	}
+	var iName string
+	if less.Type.Params != nil && len(less.Type.Params.List) > 0 && len(less.Type.Params.List[0].Names) > 0 {
+		iName = less.Type.Params.List[0].Names[0].Name
+	}
+	nCases := 0
+	ast.Inspect(less.Body, func(n ast.Node) bool {
+		cc, ok := n.(*ast.CaseClause)
+		if !ok || len(cc.List) != 1 {
+			return true
+		}
+		k, ok := constInt(pk, cc.List[0])
+		if !ok {
+			return true
+		}
+		var cmps []cmp
+		for _, st := range cc.Body {
+			ast.Inspect(st, func(m ast.Node) bool {
+				rs, ok := m.(*ast.ReturnStmt)
+				if !ok || len(rs.Results) != 1 {
+					return true
+				}
+				be, ok := ast.Unparen(rs.Results[0]).(*ast.BinaryExpr)
+				if !ok {
+					return true
+				}
+				if _, isCmp := flipRel[be.Op]; !isCmp {
+					return true
+				}
+				w1, a1, b1, ok1 := operand(be.X)
+				w2, a2, b2, ok2 := operand(be.Y)
+				if !ok1 || !ok2 || a1 != a2 || b1 != b2 || w1 == w2 {
+					return true
+				}
+				op := be.Op
+				if w1 != iName {
+					op = flipRel[op]
+				}
+				cmps = append(cmps, cmp{a1, op.String(), b1})
+				return true
+			})
+		}
+		nCases++
+		cons := fmt.Sprintf("clip/smartclip.(sortableEndpoints).Less#side%d", k)
+		sd, okSide := sides[k]
+		bad := ""
+		if !okSide {
+			bad = fmt.Sprintf("side %d is not a side pointSide returns", k)
+		} else if len(cmps) != 2 {
+			bad = fmt.Sprintf("expected a primary and a tie-break comparison, extracted %d", len(cmps))
+		} else {
+			vary := 1 - sd.axis
+			// counter-clockwise walk: left(Min[0]) down, bottom(Min[1]) right, right(Max[0]) up, top(Max[1]) left
+			decreasing := (sd.side == "Min" && sd.axis == 0) || (sd.side == "Max" && sd.axis == 1)
+			for _, cm := range cmps {
+				what := "primary comparison"
+				if cm.before {
+					what = "tie-break"
+				}
+				if cm.axis != vary {
+					bad += fmt.Sprintf(" the %s compares coordinate %d, but coordinate %d varies along side %d;", what, cm.axis, vary, k)
+				}
+				isDec := strings.HasPrefix(cm.rel, ">")
+				if isDec != decreasing {
+					bad += fmt.Sprintf(" the %s orders by %s, against the counter-clockwise walk on side %d (%s[%d]);", what, cm.rel, k, sd.side, sd.axis)
+				}
+			}
+			if cmps[0].rel != cmps[1].rel {
+				bad += fmt.Sprintf(" primary comparison uses %s but the tie-break uses %s;", cmps[0].rel, cmps[1].rel)
+			}
+		}
+		if bad != "" {
+			c.R.Bad("T8b-endpoint-order", cons, p.Pos(cc.Pos()), strings.TrimSpace(bad))
+		} else {
+			c.R.OK("T8b-endpoint-order", cons, p.Pos(cc.Pos()), fmt.Sprintf("side %d (%s[%d]): coordinate %d, relation %s, tie-break alike", k, sd.side, sd.axis, 1-sd.axis, cmps[0].rel))
+		}
+		return true
+	})
+	c.R.Floor("T8b-endpoint-order", nCases, 4)
+}
